@@ -60,6 +60,9 @@ def required(tier):
           'C07.wrap_pairs': n // 2, 'monitor.calls': n}
 
 
+_form = [None]
+
+
 def label_vector(rng):
   n = int(rng.randint(4, 61))
   c = int(rng.randint(1, 6))
@@ -91,9 +94,30 @@ def run_case(spec, j):
     rng = rng_for('c7', spec['seed'], spec['batch'], t)
     y = label_vector(rng)
     y0 = y.copy()
-    _pairs_case(j, Constraints, wrap_pairs, y, rng)
-    _chunks_case(j, Constraints, y, rng)
-    _triplets_case(j, Constraints, y, rng)
+    # the same labels in another container / dtype (unsigned ones only when
+    # there is no unknown label to represent)
+    forms = ['int64', 'int32', 'int8', 'float64', 'list', 'readonly']
+    if y.min() >= 0:
+      forms += ['uint8', 'uint16', 'uint64']
+    form = forms[int(rng.randint(len(forms)))]
+    j.count('labels-as-' + form)
+
+    def conv(lab, form=form):
+      lab = np.asarray(lab)
+      if form == 'list':
+        return lab.tolist()
+      if form == 'readonly':
+        lab = lab.copy()
+        lab.setflags(write=False)
+        return lab
+      return lab.astype(form)
+
+    def C2(lab):
+      return Constraints(conv(lab))
+    _form[0] = form
+    _pairs_case(j, C2, wrap_pairs, y, rng)
+    _chunks_case(j, C2, y, rng)
+    _triplets_case(j, C2, y, rng)
     if not np.array_equal(y, y0):
       j.violated('C07.labels-unmodified', {'y0': y0, 'y': y})
   j.ok('monitor.calls', len(_log))
